@@ -8,7 +8,7 @@ git -C /repo worktree add -q --detach $W HEAD || exit 2
 cd $W
 bld() { # $1 = dir
   mkdir -p $1 && (cd $1 && CFLAGS="-O2 -w" cmake -G Ninja $W -DTESTS=100 -DBENCH=0 -DDOCUM=off -DSHLIB=off -DVERBS=off $EXTRA_CMAKE >/dev/null 2>&1 && cmake --build . -j8 --target relic_s $2 >/dev/null 2>&1); }
-demo() { gcc -O1 -w -I $1/include -I $W/include -I $W/include/low $D -o $1/demo $1/lib/librelic_s.a 2>/dev/null && (cd $1 && timeout 600 ./demo >/dev/null 2>&1; echo $?); }
+demo() { gcc -O1 -w $DEMO_FLAGS -I $1/include -I $W/include -I $W/include/low $D -o $1/demo $1/lib/librelic_s.a 2>/dev/null && (cd $1 && timeout 600 ./demo >/dev/null 2>&1; echo $?); }
 bld $W/b0 ""
 R0=$(demo $W/b0)
 git apply $P || { echo "$N: patch does not apply"; exit 2; }
